@@ -1,5 +1,34 @@
-(* STUB: Spec layer for xsdt -- to be written *)
-From Coq Require Import NArith List.
-From ACPI Require Import Lib.Bytes Lib.Sx Spec.Layout.
+(* Spec layer for the XSDT (ACPI 6.5 5.2.8), written from SPEC_NOTES.md A.0 / A.2: entries from offset 36, 8 bytes each (u64).
+   Case vocabulary (shared with the harness, component 10):
+     ctor  (oem6 tbl8 orev)          XSDT::new(oem_id, oem_table_id, oem_revision)
+     ops   (1 entry)                 add_entry(entry: u64)          -> event n0 *)
+From Coq Require Import NArith List Bool.
+From ACPI Require Import Lib.Bytes Lib.Sx Spec.Layout Spec.MadtS.
 Import ListNotations.
-Definition xsdt_spec : tspec := null_spec.
+Open Scope N_scope.
+
+Definition xsdt_entry_ref (o : sx) : option (list N) :=
+  match o with
+  | SL [SA 1; SA e] => lay 8 [L 0 8 e]
+  | _ => None
+  end.
+
+Definition xsdt_entries_ref (ops : list sx) : option (list (list N)) := opt_concat (map xsdt_entry_ref ops).
+
+Definition xsdt_image (ctor : sx) (ops : list sx) : option (list N) :=
+  match ctor with
+  | SL [o; t; r] =>
+      match sx_hdr_args o t r, xsdt_entries_ref ops with
+      | Some h, Some es => Some (ref_table [88; 83; 68; 84] 1 h (concat es))      (* "XSDT", revision 1 (crate) *)
+      | _, _ => None
+      end
+  | _ => None
+  end.
+
+Definition xsdt_spec : tspec := {|
+  ts_image := xsdt_image;
+  ts_walk := Some (36%nat, H_fixed 8);
+  ts_entries := fun _ ops => option_map (map (fun e => (0, length e))) (xsdt_entries_ref ops);
+  ts_counts := fun _ => [];
+  ts_returns := fun _ => false
+|}.
